@@ -3,7 +3,12 @@ import ast
 
 
 def U(node):
-    return ast.unparse(node) if node is not None else ""
+    if node is None:
+        return ""
+    try:
+        return ast.unparse(node)
+    except Exception:
+        return "<value>"
 
 
 def strip_docstring(body):
